@@ -119,10 +119,14 @@ def cases(ctx):
             N = gen.size(shape)
             k = rng.choice([1, 1, 2, 3, 5])
             vals = [0] * N
+            dtype = rng.choice(["int32", "int64", "uint8", "intc", "int64", "uint64", "uint32", "int16"])
+            # labels are values, not indices: any value of the dtype (beyond 2**31, 2**32 multiples, negative) must come back intact
+            pool = {"int64": [2 ** 31, 2 ** 32, 3 * 2 ** 32, 2 ** 53 + 1, -2 ** 31 - 1, 2 ** 62],
+                    "uint64": [2 ** 31, 2 ** 32, 2 ** 63 + 5, 2 ** 64 - 1], "uint32": [2 ** 31, 2 ** 32 - 1],
+                    "int16": [-3, 32767], "int32": [-7, 2 ** 31 - 1], "intc": [2 ** 31 - 1]}.get(dtype, [])
             for t in range(k):
-                vals[rng.randrange(N)] = rng.choice([t + 1, 1, 9])
-            yield {"kind": "gv", "shape": shape, "vals": vals, "layout": rng.choice(LAYOUTS),
-                   "dtype": rng.choice(["int32", "int64", "uint8", "intc"])}
+                vals[rng.randrange(N)] = rng.choice([t + 1, 1, 9] + pool + pool)
+            yield {"kind": "gv", "shape": shape, "vals": vals, "layout": rng.choice(LAYOUTS), "dtype": dtype}
 
 
 def long_cases(ctx, rng):
@@ -257,7 +261,12 @@ def run_case(ctx, case):
                     if g not in ok:
                         return Result(False, True, {"why": "gvoronoi: label is not that of a nearest labelled pixel", "at": [y, x],
                                                     "got": g, "nearest_labels": sorted(ok)})
-        model = ctx.model.ints("gvoronoi %s" % enc_arr(l0.astype(np.int64)))[0]
+        # the model sees the labels through an injective renaming to 1..k (labels are values that are only copied: any 64-bit value)
+        names = {v: i + 1 for i, v in enumerate(sorted({int(v) for v in l0.reshape(-1)} - {0}))}
+        names[0] = 0
+        back = {i: v for v, i in names.items()}
+        renamed = np.array([names[int(v)] for v in l0.reshape(-1)], dtype=np.int64).reshape(l0.shape)
+        model = [back[m] for m in ctx.model.ints("gvoronoi %s" % enc_arr(renamed))[0]]
         if gl != model:
             return Result(False, True, {"why": "gvoronoi != model", "model": model, "got": gl})
         return Result(True, len(sites) >= 2, None, "gvoronoi")
